@@ -40,6 +40,7 @@ import (
 
 	"github.com/superfly/litefs"
 	"github.com/superfly/litefs/verifharness/core"
+	"github.com/superfly/litefs/verifharness/faults"
 	"github.com/superfly/litefs/verifharness/sim"
 )
 
@@ -719,6 +720,8 @@ func (r *runner) finish() {
 	}
 	r.hung.mu.Unlock()
 	r.rep.Extra["counters"] = r.cnt
+	// failure paths (spec/Faults.tla): LiteFS's own rollback with every call through the OS interface failing once
+	faults.Run(r.rep, r.args, faults.Select{Ops: []string{"recover", "halt", "import"}, Monitors: []string{"journal"}})
 	if n := len(r.pool.flukes); n > 0 {
 		r.rep.Extra["worker_deaths_not_reproduced"] = n
 		r.rep.Note("a child process died %d time(s) on an input on which a fresh child then succeeded (not an observation about litefs); first: %s", n, r.pool.flukes[0])
